@@ -116,7 +116,13 @@ def execute(c):
             yy = np.array([c["y0"] + (j + 0.5) * c["ry"] / 2 for j in range(c["ny"])])
             from odc.geo.types import resyx_
 
-            A = M.affine_from_axis(xx, yy, resyx_(c["ry"] / 2, c["rx"] / 2))
+            fb = c.get("fb", "true")
+            fx = c["rx"] / 2 if (fb == "true" or c["nx"] == 1) else -3 * c["rx"] / 2
+            fy = c["ry"] / 2 if (fb == "true" or c["ny"] == 1) else -3 * c["ry"] / 2
+            if fb == "none" and c["nx"] > 1 and c["ny"] > 1:
+                A = M.affine_from_axis(xx, yy)
+            else:
+                A = M.affine_from_axis(xx, yy, resyx_(fy, fx))
             ev["o"] = {"A": [_lat(v, 4) for v in A[:6]]}
         elif op == "bin1d":
             # the documented defaults (origin 0, direction +1) are left to the callee for every other case that has them
